@@ -2,6 +2,8 @@
  * every length/alignment/split of four content families. */
 #include "common.h"
 #include "lib/crc16.h"
+#include <sys/mman.h>
+#include <unistd.h>
 #include "ref_crc16.h"
 
 static uint8_t family_byte(int fam, size_t i)
@@ -38,6 +40,14 @@ int main(int argc, char **argv)
 				uint8_t byte = 0xAA;
 				lha_crc16_buf(&crc, &byte, 0);
 				if (crc != c) vf_viol("crc-empty", "state=%04x after empty buffer %04x", c, crc);
+				/* the empty sequence given as (NULL, 0), as the project's own test does, and as an empty middle piece */
+				lha_crc16_buf(&crc, NULL, 0);
+				if (crc != c) vf_viol("crc-empty", "state=%04x after the empty buffer (NULL, 0): %04x", c, crc);
+				byte = 0x33;
+				lha_crc16_buf(&crc, &byte, 1);
+				lha_crc16_buf(&crc, NULL, 0);
+				lha_crc16_buf(&crc, &byte, 1);
+				if (crc != ref_crc16_step(ref_crc16_step((uint16_t) c, 0x33), 0x33)) vf_viol("crc-empty", "state=%04x: an empty middle piece (NULL, 0) changes the result", c);
 			}
 			vf_nontrivial(c + 1);
 			vf_outcome(ref_crc16_step((uint16_t) c, 0x5A));
@@ -147,11 +157,22 @@ int main(int argc, char **argv)
 			uint8_t *buf = store + 16 + al;
 			uint16_t want;
 			int len;
+			/* every 16th block of lengths runs on heap blocks that end exactly where the data ends (asan flavour: a read of one
+			 * byte past the buffer is reported), the others inside a larger array */
+			int exact = (base / 64) % 16 == 0 || base < 640;
 			if (!vf_case("every length %d..%d at alignment %d in one call", base, base + 63 <= maxlen ? base + 63 : maxlen, al)) continue;
 			want = ref_crc16(0xA5C3, buf, (size_t) base);
 			for (len = base; len < base + 64 && len <= maxlen; ++len) {
 				uint16_t c = 0xA5C3;
 				if (len > base) want = ref_crc16(want, buf + len - 1, 1);
+				if (exact && len > 0) {
+					uint8_t *blk = malloc((size_t) len + (size_t) al), *p = blk + al;
+					memcpy(p, buf, (size_t) len);
+					lha_crc16_buf(&c, p, (size_t) len);
+					/* and as two pieces whose second ends at the end of the block */
+					{ uint16_t c2 = 0xA5C3; lha_crc16_buf(&c2, p, (size_t) len / 2); lha_crc16_buf(&c2, p + len / 2, (size_t) len - (size_t) len / 2); if (c2 != c) c = (uint16_t) ~want; }
+					free(blk);
+				} else
 				lha_crc16_buf(&c, buf, (size_t) len);
 				++VF.transitions;
 				if (c != want) { vf_viol("crc-length", "len=%d align=%d: got=%04x want=%04x", len, al, c, want); break; }
@@ -161,6 +182,30 @@ int main(int argc, char **argv)
 			vf_outcome(want);
 		}
 		free(store);
+	} else if (!strcmp(VF.space, "guard")) {
+		/* the data ends at the last readable byte of a mapping (the next page is inaccessible); meant for the unoptimised
+		 * build, where every access the source makes is really made */
+		int maxlen = atoi(vf_extra("maxlen", "600")), len;
+		long pg = sysconf(_SC_PAGESIZE);
+		uint8_t *map = mmap(NULL, (size_t) pg * 3, PROT_READ | PROT_WRITE, MAP_PRIVATE | MAP_ANONYMOUS, -1, 0);
+		if (map == MAP_FAILED || mprotect(map + 2 * pg, (size_t) pg, PROT_NONE)) { printf("HARNESS cannot map the guard page\n"); vf_done(); return 0; }
+		for (len = 0; len <= maxlen; ++len) {
+			uint8_t *p = map + 2 * pg - len;
+			uint16_t want, c, c2;
+			int i;
+			if (!vf_case("len=%d ending at the last readable byte before an inaccessible page", len)) continue;
+			for (i = 0; i < len; ++i) p[i] = family_byte(2, (size_t) i);
+			want = ref_crc16(0x0F0F, p, (size_t) len);
+			c = 0x0F0F;
+			lha_crc16_buf(&c, p, (size_t) len);
+			c2 = 0x0F0F;
+			lha_crc16_buf(&c2, p, (size_t) len / 3);
+			lha_crc16_buf(&c2, p + len / 3, (size_t) len - (size_t) len / 3);
+			vf_step(vf_mix(c, (uint64_t) len));
+			if (c != want || c2 != want) vf_viol("crc-guard", "len=%d: whole %04x, two pieces %04x, reference %04x", len, c, c2, want);
+			if (len) vf_nontrivial((uint64_t) len + 77000);
+			vf_outcome(want);
+		}
 	} else if (!strcmp(VF.space, "long")) {
 		/* lengths around 2^16, 2^17, 2^20 and 2^24: whole, and split at boundary points, two alignments */
 		static const size_t lens[] = { 65534, 65535, 65536, 65537, 65538, 131071, 131072, 131073, 1048575, 1048576, 1048577, 16777215, 16777216, 16777217 };
